@@ -408,7 +408,16 @@ func runC02(x *xctx) *violation {
 	simos.PutFile(path, data)
 
 	execs, parsedDamaged, e2e := 0, 0, 0
+	cut := false
 	try := func(kind string, desc string, mutated []byte) *violation {
+		if cut {
+			return nil
+		}
+		if execs%32 == 31 && pastWorkerDeadline(45*time.Second) {
+			cut = true
+			x.probe("fault_family_enumeration_cut_at_worker_deadline")
+			return nil
+		}
 		simos.PutFile(path, mutated)
 		execs++
 		if execs%97 == 1 {
